@@ -27,6 +27,15 @@ def load_catalog():
             continue
         cat.append({"id": "seed-" + os.path.basename(d), "property": meta.get("property", os.path.basename(d)[:3]),
                     "expect": "alarm", "patch": os.path.join(d, "patch.diff")})
+    # behaviour-preserving refactorings kept from the sub-agent round: must stay quiet
+    for d in sorted(glob.glob(os.path.join(VERIF, "benign", "C*-b[0-9]"))):
+        try:
+            meta = json.load(open(os.path.join(d, "meta.json")))
+        except (OSError, ValueError):
+            continue
+        for prop in meta.get("check_properties", [meta.get("property", os.path.basename(d)[:3])]):
+            cat.append({"id": "refactor-" + os.path.basename(d) + ("" if prop == meta.get("property") else "@" + prop), "property": prop,
+                        "expect": "quiet", "patch": os.path.join(d, "patch.diff")})
     return cat
 
 def overlay_from_patch(patch, workdir):
@@ -101,9 +110,20 @@ def main():
     ap.add_argument("--json", default="")
     ap.add_argument("--no-seeds", action="store_true")
     ap.add_argument("--quiet", action="store_true")
+    ap.add_argument("--all-props", action="store_true")
     a = ap.parse_args()
     subprocess.run([os.path.join(VERIF, "check.sh"), "--build"], check=True)
     cat = [v for v in load_catalog() if (not a.p or v["property"] == a.p) and (a.k in v["id"]) and not (a.no_seeds and "patch" in v)]
+    if a.all_props:
+        # development: evaluate every patch-based benign variant against all 19 properties
+        extra = []
+        for v in cat:
+            if "patch" in v and v.get("expect") == "quiet" and "@" not in v["id"]:
+                for i in range(1, 20):
+                    pid = "C%02d" % i
+                    if pid != v["property"]:
+                        extra.append(dict(v, id=v["id"] + "@" + pid, property=pid))
+        cat += extra
     work = tempfile.mkdtemp(prefix="zenoselftest-")
     res = {}
     with concurrent.futures.ThreadPoolExecutor(max_workers=a.j) as ex:
@@ -122,7 +142,7 @@ def main():
     n = len(cat)
     print("selftest: %d variants, %d ok, %d skipped, %d wrong" % (n, sum(1 for s, _ in res.values() if s == "ok"), sum(1 for s, _ in res.values() if s == "skip"), bad))
     if a.json:
-        kinds = {v["id"]: ("seeded" if "patch" in v else v.get("expect", "alarm")) for v in cat}
+        kinds = {v["id"]: ("seeded" if "patch" in v and v.get("expect") == "alarm" else v.get("expect", "alarm")) for v in cat}
         json.dump({k: list(v) + [kinds[k]] for k, v in res.items()}, open(a.json, "w"), indent=1)
     sys.exit(1 if bad else 0)
 
